@@ -1,11 +1,13 @@
-//! A minimal reader for exactly the DOT text the `dot` crate emits:
-//! `digraph NAME {`, `    ID[label="…"];`, `    A -> B[label="…"];`, `}`.
+//! A reader for the DOT language as far as decision graphs, parse trees and edge lists need it
+//! (no subgraphs, no HTML identifiers): the layout, quoting style, statement terminators and
+//! comments of the text are free; only the graph it denotes is handed to the checks.
 
 use std::collections::HashMap;
 
 #[derive(Debug, Clone, Default)]
 pub struct Graph {
     pub name: String,
+    pub directed: bool,
     /// declaration order
     pub nodes: Vec<(String, String)>,
     pub edges: Vec<(String, String, String)>,
@@ -48,55 +50,307 @@ fn unescape(s: &str) -> Result<String, String> {
     Ok(out)
 }
 
-pub fn parse(text: &str) -> Result<Graph, String> {
-    let mut g = Graph::default();
-    let mut lines = text.lines();
-    let first = lines.next().ok_or("empty DOT text")?;
-    let first = first.trim();
-    let rest = first
-        .strip_prefix("digraph ")
-        .ok_or_else(|| format!("expected `digraph`, got {:?}", first))?;
-    g.name = rest
-        .strip_suffix(" {")
-        .ok_or_else(|| format!("expected ` {{` at the end of {:?}", first))?
-        .to_string();
-    let mut closed = false;
-    for line in lines {
-        let l = line.trim();
-        if l.is_empty() {
+#[derive(Debug, Clone, PartialEq)]
+enum Tok {
+    /// bare identifier or numeral
+    Id(String),
+    /// quoted string, raw content (escapes not yet interpreted)
+    Quoted(String),
+    LBrace,
+    RBrace,
+    LSq,
+    RSq,
+    Semi,
+    Comma,
+    Eq,
+    Colon,
+    Arrow,
+    Dashes,
+}
+
+fn tokenize(text: &str) -> Result<Vec<Tok>, String> {
+    let cs: Vec<char> = text.chars().collect();
+    let mut out = Vec::new();
+    let mut i = 0usize;
+    let mut line_start = true;
+    while i < cs.len() {
+        let c = cs[i];
+        if c == '\n' {
+            line_start = true;
+            i += 1;
             continue;
         }
-        if closed {
-            return Err(format!("text after the closing brace: {:?}", l));
-        }
-        if l == "}" {
-            closed = true;
+        if c.is_whitespace() {
+            i += 1;
             continue;
         }
-        let split = l
-            .find("[label=\"")
-            .ok_or_else(|| format!("statement without label: {:?}", l))?;
-        let head = &l[..split];
-        let tail = &l[split + 8..];
-        let label_raw = tail
-            .strip_suffix("\"];")
-            .ok_or_else(|| format!("statement does not end with `\"];`: {:?}", l))?;
-        let label = unescape(label_raw)?;
-        let ok_id = |s: &str| !s.is_empty() && s.chars().all(|c| c.is_ascii_alphanumeric() || c == '_');
-        if let Some((a, b)) = head.split_once(" -> ") {
-            if !ok_id(a) || !ok_id(b) {
-                return Err(format!("malformed edge endpoints in {:?}", l));
+        if c == '#' && line_start {
+            while i < cs.len() && cs[i] != '\n' {
+                i += 1;
             }
-            g.edges.push((a.to_string(), label, b.to_string()));
+            continue;
+        }
+        line_start = false;
+        if c == '/' && i + 1 < cs.len() && cs[i + 1] == '/' {
+            while i < cs.len() && cs[i] != '\n' {
+                i += 1;
+            }
+            continue;
+        }
+        if c == '/' && i + 1 < cs.len() && cs[i + 1] == '*' {
+            let mut j = i + 2;
+            loop {
+                if j + 1 >= cs.len() {
+                    return Err("unterminated /* comment".into());
+                }
+                if cs[j] == '*' && cs[j + 1] == '/' {
+                    break;
+                }
+                j += 1;
+            }
+            i = j + 2;
+            continue;
+        }
+        match c {
+            '{' => out.push(Tok::LBrace),
+            '}' => out.push(Tok::RBrace),
+            '[' => out.push(Tok::LSq),
+            ']' => out.push(Tok::RSq),
+            ';' => out.push(Tok::Semi),
+            ',' => out.push(Tok::Comma),
+            '=' => out.push(Tok::Eq),
+            ':' => out.push(Tok::Colon),
+            _ => {
+                if c == '"' {
+                    let mut j = i + 1;
+                    let mut raw = String::new();
+                    loop {
+                        if j >= cs.len() {
+                            return Err("unterminated quoted string".into());
+                        }
+                        if cs[j] == '\\' {
+                            raw.push(cs[j]);
+                            if j + 1 < cs.len() {
+                                raw.push(cs[j + 1]);
+                            }
+                            j += 2;
+                            continue;
+                        }
+                        if cs[j] == '"' {
+                            break;
+                        }
+                        raw.push(cs[j]);
+                        j += 1;
+                    }
+                    out.push(Tok::Quoted(raw));
+                    i = j + 1;
+                    continue;
+                }
+                if c == '-' && i + 1 < cs.len() && cs[i + 1] == '>' {
+                    out.push(Tok::Arrow);
+                    i += 2;
+                    continue;
+                }
+                if c == '-' && i + 1 < cs.len() && cs[i + 1] == '-' {
+                    out.push(Tok::Dashes);
+                    i += 2;
+                    continue;
+                }
+                if c == '<' {
+                    return Err("HTML-like DOT identifiers are not supported by this reader".into());
+                }
+                let word = |ch: char| ch.is_alphanumeric() || ch == '_' || (ch as u32) >= 0x80;
+                if word(c) || c == '-' || c == '.' {
+                    let numeral = c.is_ascii_digit() || c == '-' || c == '.';
+                    let mut j = i + 1;
+                    while j < cs.len() && (word(cs[j]) || (numeral && cs[j] == '.')) {
+                        j += 1;
+                    }
+                    out.push(Tok::Id(cs[i..j].iter().collect()));
+                    i = j;
+                    continue;
+                }
+                return Err(format!("unexpected character {:?} in DOT text", c));
+            }
+        }
+        i += 1;
+    }
+    Ok(out)
+}
+
+/// node / graph identifiers: only the escaped quote (and backslash) are interpreted
+fn id_text(t: &Tok) -> Option<String> {
+    match t {
+        Tok::Id(s) => Some(s.clone()),
+        Tok::Quoted(raw) => {
+            let mut out = String::new();
+            let mut it = raw.chars().peekable();
+            while let Some(c) = it.next() {
+                if c == '\\' {
+                    match it.peek() {
+                        Some('"') => {
+                            out.push('"');
+                            it.next();
+                        }
+                        Some('\\') => {
+                            out.push('\\');
+                            it.next();
+                        }
+                        _ => out.push(c),
+                    }
+                } else {
+                    out.push(c);
+                }
+            }
+            Some(out)
+        }
+        _ => None,
+    }
+}
+
+struct P {
+    t: Vec<Tok>,
+    i: usize,
+}
+
+impl P {
+    fn peek(&self) -> Option<&Tok> {
+        self.t.get(self.i)
+    }
+    fn next(&mut self) -> Option<Tok> {
+        let x = self.t.get(self.i).cloned();
+        self.i += 1;
+        x
+    }
+    fn eat(&mut self, t: &Tok) -> bool {
+        if self.peek() == Some(t) {
+            self.i += 1;
+            true
         } else {
-            if !ok_id(head) {
-                return Err(format!("malformed node id in {:?}", l));
-            }
-            g.nodes.push((head.to_string(), label));
+            false
         }
     }
-    if !closed {
-        return Err("missing closing brace".into());
+    fn keyword(&self, k: &str) -> bool {
+        matches!(self.peek(), Some(Tok::Id(s)) if s.eq_ignore_ascii_case(k))
+    }
+    /// zero or more `[ a = b (;|,)? ... ]`; returns the label attribute if present (escapes interpreted)
+    fn attr_lists(&mut self) -> Result<Option<String>, String> {
+        let mut label = None;
+        while self.eat(&Tok::LSq) {
+            loop {
+                if self.eat(&Tok::RSq) {
+                    break;
+                }
+                let k = self.next().ok_or("unterminated attribute list")?;
+                let key = id_text(&k).ok_or_else(|| format!("attribute name expected, got {:?}", k))?;
+                if !self.eat(&Tok::Eq) {
+                    return Err(format!("`=` expected after attribute {:?}", key));
+                }
+                let vt = self.next().ok_or("attribute value missing")?;
+                let val = match &vt {
+                    Tok::Quoted(raw) => unescape(raw)?,
+                    Tok::Id(s) => s.clone(),
+                    other => return Err(format!("attribute value expected, got {:?}", other)),
+                };
+                if key.eq_ignore_ascii_case("label") {
+                    label = Some(val);
+                }
+                let _ = self.eat(&Tok::Semi) || self.eat(&Tok::Comma);
+            }
+        }
+        Ok(label)
+    }
+    fn node_id(&mut self) -> Result<String, String> {
+        let t = self.next().ok_or("node identifier expected, got end of text")?;
+        let id = id_text(&t).ok_or_else(|| format!("node identifier expected, got {:?}", t))?;
+        // ports are accepted and ignored
+        while self.eat(&Tok::Colon) {
+            let p = self.next().ok_or("port expected")?;
+            id_text(&p).ok_or("port expected")?;
+        }
+        Ok(id)
+    }
+}
+
+/// Reads the DOT language (graph / digraph, node, edge and attribute statements, edge chains,
+/// quoted / bare / numeric identifiers, comments, optional `;`); subgraphs and HTML identifiers
+/// are not supported. Node label = its `label` attribute, by default its identifier.
+pub fn parse(text: &str) -> Result<Graph, String> {
+    let mut p = P { t: tokenize(text)?, i: 0 };
+    let mut g = Graph::default();
+    if p.keyword("strict") {
+        p.next();
+    }
+    if p.keyword("digraph") {
+        g.directed = true;
+    } else if p.keyword("graph") {
+        g.directed = false;
+    } else {
+        return Err(format!("expected `graph` or `digraph`, got {:?}", p.peek()));
+    }
+    p.next();
+    if !matches!(p.peek(), Some(Tok::LBrace)) {
+        let t = p.next().ok_or("graph name or `{` expected")?;
+        g.name = id_text(&t).ok_or_else(|| format!("graph name expected, got {:?}", t))?;
+    }
+    if !p.eat(&Tok::LBrace) {
+        return Err(format!("`{{` expected, got {:?}", p.peek()));
+    }
+    loop {
+        if p.eat(&Tok::Semi) {
+            continue;
+        }
+        if p.eat(&Tok::RBrace) {
+            break;
+        }
+        if p.peek().is_none() {
+            return Err("missing closing brace".into());
+        }
+        if p.keyword("subgraph") || matches!(p.peek(), Some(Tok::LBrace)) {
+            return Err("subgraphs are not supported by this reader".into());
+        }
+        if (p.keyword("graph") || p.keyword("node") || p.keyword("edge")) && matches!(p.t.get(p.i + 1), Some(Tok::LSq)) {
+            p.next();
+            p.attr_lists()?;
+            continue;
+        }
+        let first = p.node_id()?;
+        if p.eat(&Tok::Eq) {
+            // graph attribute `a = b`
+            let t = p.next().ok_or("attribute value missing")?;
+            id_text(&t).ok_or("attribute value expected")?;
+            continue;
+        }
+        let mut chain = vec![first];
+        loop {
+            let op = match p.peek() {
+                Some(Tok::Arrow) => true,
+                Some(Tok::Dashes) => false,
+                _ => break,
+            };
+            if op != g.directed {
+                return Err(format!(
+                    "edge operator {} in a {}",
+                    if op { "->" } else { "--" },
+                    if g.directed { "digraph" } else { "graph" }
+                ));
+            }
+            p.next();
+            chain.push(p.node_id()?);
+        }
+        let label = p.attr_lists()?;
+        if chain.len() == 1 {
+            let id = chain.pop().expect("one");
+            let l = label.unwrap_or_else(|| id.clone());
+            g.nodes.push((id, l));
+        } else {
+            for w in chain.windows(2) {
+                g.edges.push((w[0].clone(), label.clone().unwrap_or_default(), w[1].clone()));
+            }
+        }
+    }
+    if p.peek().is_some() {
+        return Err(format!("text after the closing brace: {:?}", p.peek()));
     }
     Ok(g)
 }
